@@ -149,7 +149,7 @@ class C03(Prop):
                   "(Stockholm/Pfam: every field incl. weight and cut-off values) -> re-write and byte comparison. "
                   "REFORMAT STABILITY (`<fmt>_read_in_domain_*`, `<fmt>_reformat_stable_*`): for EVERY input the reader accepts, the alignment it returns lies in the writer's proved domain, so "
                   "read(write(read x)) = project(read x) - for A2M and aligned FASTA under the explicit side condition that no header line holds a bare CR/LF-adjacent byte (`a2mHdrOkB`, "
-                  "`afaHdrOkB`), for Clustal under `cluNamesNeB` (no empty name) and the not-a-consensus-line condition, for "
+                  "`afaHdrOkB`), for Clustal under the not-a-consensus-line condition (names are non-empty since fix C03-nul-in-name: `cluNamesNeB` dropped), for "
                   "PHYLIP (both variants; names come back <= 10 graphic characters, nseq/alen <= 2^31-1 proved from esl_mem_strtoi32) under `phyNamesNeB` and, text mode, "
                   "`phyRowsSymB` (the writer upper-cases), for PSI-BLAST partially (no lower-case residue); each side condition is shown necessary by a proved counter-example on the model (listed in DESIGN / the report). "
                   "ROUND 6: (a) WEIGHT / CUT-OFF TOKENS for EVERY finite binary64 / binary32 value, negative, zero and subnormal included: the token is [-]d..d.dd / [-]d..d.d with exactly "
@@ -394,8 +394,11 @@ class C03(Prop):
                                                              "reformat fmt=afa abc=dna hex=%s" % (b">a\n" + b"A" * 60 + b">\n").hex()]})
         rf("known-reformat-afa-cr", "C03:reformat:header-trailing-cr", "afa", b">a x\r\r\nAC\n")
         rf("known-reformat-a2m-cr", "C03:reformat:header-trailing-cr", "a2m", b">a x\r\r\nAC\n")
-        rf("known-reformat-clustal-nul-name", "C03:reformat:nul-in-name", "clustal", b"CLUSTAL W alignment\n\n\x00x ACGT\n   ****\n")
-        rf("known-reformat-psiblast-nul-name", "C03:reformat:nul-in-name", "psiblast", b"\x00x ACGT\n")
+        # repaired (C03-nul-in-name: a NUL byte in the name field of a Clustal / PSI-BLAST alignment line is eslEFORMAT): plain regression cases
+        c.append({"name": "regress-reformat-nul-name", "ops": ["reformat fmt=%s abc=%s hex=%s" % (f, a, d.hex()) for f, a, d in (
+            ("clustal", "text", b"CLUSTAL W alignment\n\n\x00x ACGT\n   ****\n"), ("psiblast", "text", b"\x00x ACGT\n"),
+            ("clustallike", "text", b"MUSCLE alignment\n\na\x00b ACGT\n    ****\n"), ("clustal", "dna", b"CLUSTAL W alignment\n\na\x00 ACGT\n   ****\n"),
+            ("psiblast", "amino", b"a\x00b ACGT\nc ACGT\n"), ("clustal", "text", b"CLUSTAL W alignment\n\nab ACGT\n   ****\n\na\x00 ACGT\n   ****\n"))]})
         rf("known-reformat-clustal-consensus-lookalike", "C03:reformat:clustal-consensus-lookalike", "clustal",
            b"CLUSTAL W alignment\n\nx  " + b"A" * 61 + b"\n*  " + b"A" * 60 + b"*\n   " + b"*" * 61 + b"\n")
         return c
